@@ -49,7 +49,7 @@ def plain_hooks(d):
 
 
 def parse_table(lines):
-    t = {'new': [], 'm': [], 'acc': [], 'sub': [], 'mk': [], 'fld': [], 'dyn': False, 'ev': [], 'dacc': [], 'into': [], 'arm': []}
+    t = {'new': [], 'm': [], 'acc': [], 'sub': [], 'mk': [], 'fld': [], 'dyn': False, 'ev': [], 'dacc': [], 'into': [], 'arm': [], 'b': [], 'nb': []}
     for l in lines:
         f = l.split('|')
         if f[0] == 'dyn':
